@@ -179,7 +179,13 @@ type Replay struct {
 }
 
 type RaceReplay struct {
-	Requests []json.RawMessage `json:"requests"`
-	Rounds   int               `json:"rounds"`
-	Pair     string            `json:"pair"`
+	Sets   [][]RaceRequest `json:"sets"`
+	Rounds int             `json:"rounds"`
+	Pair   string          `json:"pair"`
+}
+
+type RaceRequest struct {
+	Method string `json:"method"`
+	Path   string `json:"path"`
+	Op     *Op    `json:"body"`
 }
